@@ -742,6 +742,7 @@ impl<T: Fam> Fam for Vec<T> {
         let n = match r.below(12) {
             0 => 0,
             1 if d <= 2 => r.range(10, 40),
+            2 | 3 => 1,
             _ => r.range(1, 4),
         };
         (0..n).map(|_| T::gen(r, d - 1)).collect()
@@ -918,6 +919,14 @@ fam_struct!(Name(String));
 fam_struct!(MaybeByte(Option<u8>));
 fam_struct!(Id(u64));
 fam_struct!(Nothing());
+// newtypes around compound contents (a one-element sequence is where "newtype" and "tuple of one" meet)
+fam_struct!(Path(Vec<u32>));
+fam_struct!(Single((String,)));
+fam_struct!(Ids(Vec<Id>));
+fam_struct!(WrapPair(Pair));
+fam_struct!(WrapMap(BTreeMap<String, u8>));
+fam_struct!(WrapOpt(Option<Vec<u8>>));
+fam_struct!(WrapWrap(Path));
 fam_struct!(Pair(i32, String));
 fam_struct!(Triple(f32, f64, char));
 fam_struct!(Point { x: f64, y: f64 });
@@ -1634,6 +1643,8 @@ roots! {
     "Degenerate" => Degenerate, "VecDegenerate" => Vec<Degenerate>, "TokMap" => TokMap, "OptTokMap" => Option<TokMap>,
     "HashStrI32" => FixedHashMap<String, i32>, "HashU8Str" => FixedHashMap<u8, String>,
     "HashCharVec" => FixedHashMap<char, Vec<f32>>,
+    "Path" => Path, "Single" => Single, "Ids" => Ids, "WrapPair" => WrapPair, "WrapMap" => WrapMap, "WrapOpt" => WrapOpt,
+    "WrapWrap" => WrapWrap, "VecPath" => Vec<Path>, "OptSingle" => Option<Single>,
 }
 
 pub fn eval(line: &str) -> String {
